@@ -459,7 +459,7 @@ result_t World::onRead(unsigned int timeout) {
       return endTimeout();
     }
     // ---- menu ----
-    enum A { DEFAULT, REPLACE, DROP, INSERT, SILENCE, LONGSILENCE, CHUNK, SPLIT, LOSE_QUIET, LOSE_TEL, ECHO_LOST, READERR, ENQ };
+    enum A { DEFAULT, REPLACE, DROP, INSERT, SILENCE, LONGSILENCE, CHUNK, SPLIT, LOSE_QUIET, LOSE_TEL, ECHO_LOST, ECHO_LATE, READERR, ENQ };
     struct Alt { A a; int arg; uint8_t kind; };
     static thread_local std::vector<Alt> alts;
     alts.clear();
@@ -476,6 +476,7 @@ result_t World::onRead(unsigned int timeout) {
         }
       }
       alts.push_back(Alt{ECHO_LOST, 0, K_DEV});
+      if (sc.lateEcho) alts.push_back(Alt{ECHO_LATE, 0, K_DEV});  // the echo arrives only after this read timed out
     } else if (d.k == D_BYTE) {
       for (uint8_t x : sc.alphabet) if (x != d.v) alts.push_back(Alt{REPLACE, x, K_DEV});
       if (sc.insertDrop) {
@@ -585,6 +586,14 @@ result_t World::onRead(unsigned int timeout) {
         echoDelivered(d.v, (uint8_t)ch.arg);
         startScript(&sc.winnerTelegram);
         return RESULT_OK;
+      case ECHO_LATE: {
+        // the symbol is on the wire but reaches ebusd late: this read times out, the echo stays queued
+        int ms = (int)timeout + lat;
+        if (sc.unbounded && gapLeft > 0) gapLeft--;
+        vp::vclockAdvanceMs(ms);
+        evTimeout(ms);
+        return RESULT_ERR_TIMEOUT;
+      }
       case ECHO_LOST:
         if (sc.unbounded && gapLeft > 0) gapLeft--;
         echoQ.pop_front();
